@@ -55,8 +55,9 @@ def sync_verif():
                 s2 = s.replace('path = "/repo', f'path = "{REPO}')
                 if s2 != s:
                     open(p, "w").write(s2)
-    gen = f"{VERIF}/harness/mv-gen/src"
-    if os.path.isdir(gen):
+    for gen in (f"{VERIF}/harness/mv-gen/src", f"{VERIF}/harness/mv-inproc/src"):
+        if not os.path.isdir(gen):
+            continue
         for f in os.listdir(gen):
             p = os.path.join(gen, f)
             s = open(p).read()
